@@ -21,7 +21,7 @@ fl = env.fl
 
 
 def cases(rng, run: int, tier: str) -> Iterator[dict]:
-    sp = S.gen_spec(rng, activations=["General"], fn_reads_output=False, disabled=0.05)
+    sp = S.gen_spec(rng, activations=["General"], fn_reads_output=False, disabled=0.05, norm_functions=True)
     if rng.random() < 0.12:
         sp = S.example_spec(rng, randomise_cascade=False) or sp
     # make the cascade interesting: most outputs get some setting
@@ -99,6 +99,8 @@ def execute(trace: dict, keep_log: bool = False) -> Outcome:
         out.digest, out.log = dig.hex(), log
         return out
     n_in = len(E.input_variables)
+    for _cls in S.classes_of(sp):
+        st.hit("classes." + _cls)
     models = [Model({"min": o["min"], "max": o["max"], "lock_range": o["lock_range"], "lock_previous": o["lock_previous"],
                      "default": o["default"], "enabled": o["enabled"]}) for o in sp["outputs"]]
     sig = [";".join(f"{int(o['lock_previous'])}{int(o['lock_range'])}{o['default'] != 'nan'}{(o['defuzzifier'] or {'cls': '---'})['cls'][:3]}" for o in sp["outputs"])]
